@@ -189,8 +189,11 @@ def forbidden_hits() -> list[str]:
 def proof_audit(pid: str, leanchecker: bool = False) -> dict:
     """Build Props/<pid> and audit the axioms of each of its theorems."""
     res = {"theorems": [], "discharged": [], "failed": [], "build_ok": False, "log": "", "forbidden": []}
-    module = f"AspireModel.Props.{pid}"
-    ok, log, dt = lake_build([module, "AspireModel"])
+    try:
+        targets = [f"AspireModel.Props.{m}" for m in property_modules(pid)]
+    except FileNotFoundError:
+        targets = [f"AspireModel.Props.{pid}"]
+    ok, log, dt = lake_build(targets + ["AspireModel.Driver"])
     res["build_ok"] = ok
     res["build_s"] = round(dt, 2)
     if not ok:
@@ -228,6 +231,136 @@ def proof_audit(pid: str, leanchecker: bool = False) -> dict:
         q = subprocess.run(["lake", "env", "leanchecker"] + [f"AspireModel.Props.{m}" for m in property_modules(pid)], cwd=LEAN, capture_output=True, text=True, timeout=3000)
         res["leanchecker_ok"] = q.returncode == 0
         res["leanchecker_log"] = (q.stdout + q.stderr)[-1500:]
+    return res
+
+
+# ----------------------------------------------------------------------------- tie to the source by translation
+def _lean_imports(text: str) -> list[str]:
+    return re.findall(r"^import\s+AspireModel\.([A-Za-z0-9_.]+)\s*$", text, re.M)
+
+
+def _enclosing_decl(text: str, line: int) -> str | None:
+    name = None
+    for i, l in enumerate(text.split("\n"), 1):
+        m = re.match(r"^\s*(?:theorem|lemma|def|noncomputable def|example)\s+([^\s:({\[]+)", l)
+        if m:
+            if i > line:
+                break
+            name = m.group(1)
+    return name
+
+
+def tie_audit(pid: str) -> dict | None:
+    """Regenerate the Lean translation of the numeric source functions from the aspire package the check imports and
+    make sure the tie theorems of this property (Props/<pid>Tie.lean: translated source = model) still check.
+
+    When the regenerated definitions are identical to the files under lean/AspireModel/Gen (which `lake build` compiled),
+    the ordinary build + axiom audit of Props/<pid>Tie covers it.  Otherwise the changed modules and everything of this
+    property that depends on them are compiled in a scratch directory (never in /verif/lean), shadowing the built ones."""
+    try:
+        mods = [m for m in property_modules(pid) if m.endswith("Tie")]
+    except FileNotFoundError:
+        return None
+    if not mods:
+        return None
+    from .translate import py2lean, specs
+
+    t0 = time.time()
+    src = specs.repo_src()
+    texts, rep = py2lean.generate(src, specs.GROUPS, specs.SPECS, specs.CLASSES)
+    gen_dir = LEAN / "AspireModel" / "Gen"
+    changed = [m for m, t in texts.items() if not (gen_dir / f"{m}.lean").exists() or (gen_dir / f"{m}.lean").read_text() != t]
+    res = {
+        "source": str(src), "tie_modules": mods, "translated": sorted(rep["functions"]), "untranslatable": rep["failed"],
+        "skipped_statements": {k: v["notes"] for k, v in rep["functions"].items() if v["notes"]},
+        "changed_generated_modules": changed, "ok": True, "failing": [], "mode": "identical to the built translation",
+    }
+    if not changed:
+        res["wall_s"] = round(time.time() - t0, 2)
+        return res
+    # module graph of this property's tie modules
+    root = LEAN / "AspireModel"
+
+    def text_of(mod: str) -> str:
+        if mod.startswith("Gen.") and mod[4:] in texts:
+            return texts[mod[4:]]
+        return (root / (mod.replace(".", "/") + ".lean")).read_text()
+
+    graph: dict[str, list[str]] = {}
+
+    def visit(mod):
+        if mod in graph:
+            return
+        graph[mod] = _lean_imports(text_of(mod))
+        for d in graph[mod]:
+            visit(d)
+
+    for m in mods:
+        visit(f"Props.{m}")
+    dirty: dict[str, bool] = {}
+
+    def is_dirty(mod):
+        if mod not in dirty:
+            dirty[mod] = (mod.startswith("Gen.") and mod[4:] in changed) or any(is_dirty(d) for d in graph[mod])
+        return dirty[mod]
+
+    order, seen = [], set()
+
+    def topo(mod):
+        if mod in seen:
+            return
+        seen.add(mod)
+        for d in graph[mod]:
+            topo(d)
+        if is_dirty(mod):
+            order.append(mod)
+
+    for m in mods:
+        topo(f"Props.{m}")
+    res["mode"] = "source differs from the built translation: recompiled in a scratch directory"
+    res["recompiled"] = order
+    scratch = Path(tempfile.mkdtemp(prefix=f"verif_tie_{pid}_"))
+    try:
+        out = scratch / "out"
+        # Lean resolves a package (`AspireModel`) in the FIRST search-path entry that has it, so the scratch root mirrors
+        # the built library with symbolic links, except for the modules that are recompiled here
+        built = LEAN / ".lake" / "build" / "lib" / "lean"
+        skip = {built / "AspireModel" / (m.replace(".", "/")) for m in order}
+        for f in (built / "AspireModel").rglob("*"):
+            rel = f.relative_to(built)
+            if f.is_dir():
+                (out / rel).mkdir(parents=True, exist_ok=True)
+            elif f.with_suffix("") not in skip and not any(str(f).startswith(str(k) + ".") for k in skip):
+                (out / rel).parent.mkdir(parents=True, exist_ok=True)
+                os.symlink(f, out / rel)
+        env = dict(os.environ, LEAN_PATH=str(out))
+        broken: set[str] = set()
+        for mod in order:
+            if any(d in broken for d in graph[mod]):
+                broken.add(mod)
+                res["failing"].append({"module": mod, "reason": "depends on a module that no longer compiles"})
+                continue
+            srcf = scratch / "src" / "AspireModel" / (mod.replace(".", "/") + ".lean")
+            srcf.parent.mkdir(parents=True, exist_ok=True)
+            srcf.write_text(text_of(mod))
+            olean = out / "AspireModel" / (mod.replace(".", "/") + ".olean")
+            olean.parent.mkdir(parents=True, exist_ok=True)
+            p = subprocess.run(["lean", str(srcf), "-o", str(olean)], env=env, cwd=scratch / "src", capture_output=True, text=True, timeout=1800)
+            if p.returncode != 0:
+                broken.add(mod)
+                msg = p.stdout + p.stderr
+                decls = []
+                for m_ in re.finditer(r":(\d+):\d+: error", msg):
+                    d = _enclosing_decl(text_of(mod), int(m_.group(1)))
+                    if d and d not in decls:
+                        decls.append(d)
+                res["failing"].append({"module": mod, "declarations": decls, "log": msg[-2500:]})
+        res["ok"] = not broken
+    finally:
+        import shutil
+
+        shutil.rmtree(scratch, ignore_errors=True)
+    res["wall_s"] = round(time.time() - t0, 2)
     return res
 
 
@@ -291,10 +424,13 @@ class Check:
         self.failures.append(rec)
 
     # -- verdict
-    def finish(self, audit: dict | None, search=None) -> int:
+    def finish(self, audit: dict | None, search=None, tie: dict | None = None) -> int:
         pid = self.pid
         REPLAYS.mkdir(parents=True, exist_ok=True)
+        self.tie = tie
         proof_ok = bool(audit) and audit["build_ok"] and not audit["failed"] and not audit["forbidden"] and audit["theorems"]
+        tie_ok = tie is None or tie["ok"]
+        proof_ok = bool(proof_ok and tie_ok)
         corr_ok = not self.disagreements
         for e in self.known:
             if self.known_hits.get(e["id"]):
@@ -319,7 +455,13 @@ class Check:
                 print(f"VIOLATION property={pid} replay={replay_path}")
             else:
                 what = {}
-                if not proof_ok:
+                if not tie_ok:
+                    what["tie_to_source"] = {
+                        "what": "the Lean translation of the current source no longer equals the model: these tie theorems / modules do not check",
+                        "failing": tie["failing"], "untranslatable": tie["untranslatable"],
+                        "changed_generated_modules": tie["changed_generated_modules"], "source": tie["source"],
+                    }
+                if not proof_ok and not (tie_ok is False and audit and audit["build_ok"] and not audit["failed"] and not audit["forbidden"]):
                     what["proof"] = {
                         "build_ok": audit["build_ok"] if audit else False,
                         "theorems_not_checking": audit["failed"] if audit else "no audit",
@@ -387,6 +529,15 @@ class Check:
         }
         if "leanchecker_ok" in audit:
             cov["leanchecker_ok"] = audit["leanchecker_ok"]
+        tie = getattr(self, "tie", None)
+        if tie is not None:
+            cov["source_translation"] = {k: tie[k] for k in ("source", "tie_modules", "translated", "untranslatable", "skipped_statements",
+                                                            "changed_generated_modules", "mode", "ok", "wall_s") if k in tie}
+            cov["source_translation"]["failing"] = [{k: v for k, v in f.items() if k != "log"} for f in tie.get("failing", [])]
+            cov["trusted_base"].append(
+                "source translator harness/translate/py2lean.py (Python array-API subset -> Lean over `Num`): the tie theorems "
+                "Props/*Tie.lean prove `translated source = model`; the translator's reading of Python/numpy semantics is trusted "
+                "and cross-checked by the behavioural correspondence")
         cov.update(self.extra)
         doc = {
             "property_id": self.pid, "tier": self.tier, "seed": self.seed, "level": self.level,
